@@ -241,11 +241,20 @@ def admission_gate(src):
     st = src.choice('sender_state', list(S))
     adapter.plant_instance_state(core, ids[1], st)
     admitted = src.conc((st == S.CHECKED) | (st == S.RUNNING)) if src.symbolic else st in (S.CHECKED, S.RUNNING)
-    kind = src.pick('event', ['state', 'removed', 'disability'])
+    kind = src.pick('event', ['state', 'forced-state', 'removed', 'disability'])
     status = core.context.instances[ids[1]]
     before = snapshot.take(core)
     if kind == 'state':
         core.process_event(ids[1], 'app', 'p', PS.RUNNING)
+    elif kind == 'forced-state':
+        # what SupervisorListener.force_process_state of the sender publishes (a start given up about the process the
+        # local instance hosts)
+        t = CLOCK[0].t + 1
+        core.fsm.on_process_state_event(status, {'identifier': ids[0], 'nick_identifier': status.nick_identifier,
+                                                 'group': 'app', 'name': 'q', 'state': PS.FATAL, 'forced': True,
+                                                 'now': t, 'now_monotonic': t, 'pid': 0, 'expected': False,
+                                                 'spawnerr': 'No resource available', 'extra_args': '',
+                                                 'disabled': False})
     elif kind == 'removed':
         core.fsm.on_process_removed_event(status, {'group': 'app', 'name': 'p'})
     else:
